@@ -105,6 +105,7 @@ def plan(tier, seed):
     base = seed * 1000003
     for i in range(0, n, per):
         out.append({"gen": "scen", "seeds": [base + j for j in range(i, min(n, i + per))]})
+    out.insert(1, {"gen": "lazy", "seed": seed})
     return out
 
 
@@ -1514,9 +1515,14 @@ def run_scenario(seed, res):
 def run_batch(batch):
     res = Result()
     t0 = time.process_time()
-    if batch["gen"] != "scen":
+    if batch["gen"] == "lazy":
+        from ..c19_lazy import lazy_connect
+
+        lazy_connect(batch, res)
+    elif batch["gen"] != "scen":
         raise ValueError(batch["gen"])
-    for seed in batch["seeds"]:
-        run_scenario(seed, res)
+    else:
+        for seed in batch["seeds"]:
+            run_scenario(seed, res)
     res.count("cpu_s", round(time.process_time() - t0, 2))
     return res.as_dict()
